@@ -168,6 +168,15 @@ Theorem C06_live_view_bulk_overflow : forall c b es k,
 Proof. exact cop_live_overflow. Qed.
 Print Assumptions C06_live_view_bulk_overflow.
 
+(* an insert_many whose upsert loop raises at bind time on id-carrying event k leaves, in
+   the connection's view, what an insert_many of the k id-carrying events before it leaves
+   (no row of the batch is inserted); the call raises *)
+Theorem C06_live_view_upsert_overflow : forall c b es k,
+  cop_live c (UpsertOverflow b es k) = fst (sq_step c (InsertMany b (firstn k (with_id es)))) /\
+  cop_out c (UpsertOverflow b es k) = Err OtherError.
+Proof. exact cop_live_upsert_overflow. Qed.
+Print Assumptions C06_live_view_upsert_overflow.
+
 (* Refinement: forgetting the contents of the statements (any naming [tokf] of statements
    by tokens) turns a run of this model into the run of Model/Commit.v on the projected
    trace - the projected trace is a trace of the projected history ([Commit.expand]), the
@@ -244,6 +253,26 @@ Example C06_state_rejected_calls :
   sscript c1 (Std (UpdateBucket 7 None None None None None)) = [] /\
   sscript c1 (Std (InsertMany 8 [ex_ev 1; ex_ev 2])) = [SExecMany []; SCondCommit 2] /\
   sscript c1 (BulkOverflow 7 [ex_ev 1; ex_ev 2] 1) = [SExecMany [QInsertEvent 7 (ex_ev 1)]; SCondCommit 3].
+Proof. vm_compute. repeat split; reflexivity. Qed.
+
+(* an insert_many of two id-carrying events and one row whose SECOND id-carrying event (a
+   third one, not listed) overflows at bind time: one UPDATE has run, no bulk statement, the
+   finally clause counts 3 + 1; in the token model it is InsertManyFailed [u] [] 3; with 48
+   statements buffered before it the call flushes (48 + 4 > 50) and the UPDATE that ran is
+   durable when the exception reaches the caller *)
+Example C06_state_upsert_overflow :
+  let e1 := mkEvent (Some 1) 5000000 1000000 9 in
+  let e2 := mkEvent (Some 2) 6000000 1000000 9 in
+  let call := UpsertOverflow 7 [e1; e2; ex_ev 3] 1 in
+  let h := Std (CreateBucket 7 ex_meta) :: ex_inserts 48 in
+  let c := hist_live sq_init h in
+  sscript c call = [SExec (QUpdateEvent 7 1 e1); SExecMany []; SCondCommit 4] /\
+  forget_op tok0 c call = Commit.InsertManyFailed [0] [] 3 /\
+  cop_out c call = Err OtherError /\
+  cr_n (ex_state h) = 48 /\ ex_sizes (reopen (ex_state h)) = (1, 0)%nat /\
+  cr_n (ex_state (h ++ [call])) = 0 /\
+  map er_data (firstn 2 (sq_events (reopen (ex_state (h ++ [call]))))) = [9; 2] /\
+  reopen (ex_state (h ++ [call])) = live (ex_state (h ++ [call])).
 Proof. vm_compute. repeat split; reflexivity. Qed.
 
 (* replace / delete act on the reopened tables only once flushed: the cells differ *)
